@@ -277,11 +277,24 @@ Auth::Basic::Config::decode(char const *proxy_auth, const HttpRequest *request, 
         auth_user = lb;
         assert(auth_user != nullptr);
     } else {
-        /* replace the current cached password with the new one */
         Auth::Basic::User *basic_auth = dynamic_cast<Auth::Basic::User *>(auth_user.getRaw());
         assert(basic_auth);
-        basic_auth->updateCached(local_basic);
-        auth_user = basic_auth;
+        if (basic_auth->credentials() == Auth::Pending && strcmp(local_basic->passwd, basic_auth->passwd) != 0) {
+            /* A helper lookup for another password of this user is in flight
+             * and its verdict will be recorded in the cached entry. The cached
+             * password must not change until that reply arrives; otherwise an
+             * OK for the old password would authenticate the new one. Check
+             * these credentials on their own, outside the cache.
+             */
+            debugs(29, 4, "a lookup for another password of '" << lb->username() << "' is pending; not using the cached entry");
+            lb->auth_type = Auth::AUTH_BASIC;
+            lb->expiretime = current_time.tv_sec;
+            auth_user = lb;
+        } else {
+            /* replace the current cached password with the new one */
+            basic_auth->updateCached(local_basic);
+            auth_user = basic_auth;
+        }
     }
 
     /* link the request to the in-cache user */
